@@ -8,9 +8,82 @@ open Scion.Util Scion.PathMeta
 macro "peel_err" h:ident : tactic =>
   `(tactic| ((repeat' (split at $h:ident)) <;> (first | (cases $h:ident; rfl) | (cases $h:ident))))
 
+/-! ### checked accesses -/
+
+theorem readHop_ok {h : Hd} {buf : Bytes} {idx : Nat} {x : Hop} (e : readHop h buf idx = .ok x) :
+    getHop h buf idx = some x := by
+  unfold readHop at e
+  unfold getHop
+  split at e
+  · rename_i hi
+    simp only [hi, if_true]
+    split at e
+    · rename_i hd; cases e; exact hd
+    · cases e
+  · cases e
+
+theorem readInfo_ok {h : Hd} {buf : Bytes} {idx : Nat} {x : Info} (e : readInfo h buf idx = .ok x) :
+    getInfo h buf idx = some x := by
+  unfold readInfo at e
+  unfold getInfo
+  split at e
+  · rename_i hi
+    simp only [hi, if_true]
+    split at e
+    · rename_i hd; cases e; exact hd
+    · cases e
+  · cases e
+
+theorem readHop_of_get {h : Hd} {buf : Bytes} {idx : Nat} {x : Hop} (e : getHop h buf idx = some x) :
+    readHop h buf idx = .ok x := by
+  unfold getHop at e
+  unfold readHop
+  split at e
+  · rename_i hi; simp only [hi, if_true, e]
+  · cases e
+
+theorem readInfo_of_get {h : Hd} {buf : Bytes} {idx : Nat} {x : Info} (e : getInfo h buf idx = some x) :
+    readInfo h buf idx = .ok x := by
+  unfold getInfo at e
+  unfold readInfo
+  split at e
+  · rename_i hi; simp only [hi, if_true, e]
+  · cases e
+
+theorem wrInfo_of_le {h : Hd} {buf : Bytes} {idx : Nat} {i : Info} (hl : infoOff h idx + 8 ≤ buf.length) :
+    wrInfo h buf idx i = some (setInfo h buf idx i) := by unfold wrInfo; simp [hl]
+
+theorem wrMeta_of_le {h : Hd} {buf : Bytes} {pm : Hdr} (hl : h.pathOff + 4 ≤ buf.length) :
+    wrMeta h buf pm = some (setMeta h buf pm) := by unfold wrMeta; simp [hl]
+
+theorem wrHop_of_le {h : Hd} {buf : Bytes} {idx : Nat} {x : Hop} (hl : hopOff h idx + 12 ≤ buf.length) :
+    wrHop h buf idx x = some (setHop h buf idx x) := by unfold wrHop; simp [hl]
+
+theorem wrInfo_some {h : Hd} {buf b : Bytes} {idx : Nat} {i : Info} (e : wrInfo h buf idx i = some b) :
+    b = setInfo h buf idx i ∧ infoOff h idx + 8 ≤ buf.length := by
+  unfold wrInfo at e
+  split at e
+  · rename_i hl; cases e; exact ⟨rfl, hl⟩
+  · cases e
+
+theorem wrMeta_some {h : Hd} {buf b : Bytes} {pm : Hdr} (e : wrMeta h buf pm = some b) :
+    b = setMeta h buf pm ∧ h.pathOff + 4 ≤ buf.length := by
+  unfold wrMeta at e
+  split at e
+  · rename_i hl; cases e; exact ⟨rfl, hl⟩
+  · cases e
+
+theorem wrHop_some {h : Hd} {buf b : Bytes} {idx : Nat} {x : Hop} (e : wrHop h buf idx x = some b) :
+    b = setHop h buf idx x ∧ hopOff h idx + 12 ≤ buf.length := by
+  unfold wrHop at e
+  split at e
+  · rename_i hl; cases e; exact ⟨rfl, hl⟩
+  · cases e
+
 /-! ### stParse -/
 
-theorem stParse_err {h pm raw r} (e : stParse h pm raw = .error r) : r.1 = .discard ∧ r.2 = raw := by
+theorem stParse_err {h pm raw r} (e : stParse h pm raw = .error r) :
+    r.1.accepting = false ∧ r.2 = raw := by
   unfold stParse at e
   (repeat' (split at e)) <;> first | (cases e; exact ⟨rfl, rfl⟩) | (cases e)
 
@@ -28,10 +101,14 @@ theorem stParse_ok {h pm raw s} (e : stParse h pm raw = .ok s) : ParseOk h pm ra
   unfold stParse at e
   split at e
   · cases e
-  · rename_i hop hh
+  · cases e
+  · rename_i hop hh0
+    have hh := readHop_ok hh0
     split at e
     · cases e
-    · rename_i inf hi
+    · cases e
+    · rename_i inf hi0
+      have hi := readInfo_ok hi0
       split at e
       · cases e
       · rename_i hs
@@ -50,7 +127,7 @@ theorem stParse_ok {h pm raw s} (e : stParse h pm raw = .ok s) : ParseOk h pm ra
 
 /-! ### stSegID -/
 
-theorem stSegID_err {h ing s r} (e : stSegID h ing s = .error r) : r.1 = .discard := by
+theorem stSegID_err {h ing s r} (e : stSegID h ing s = .error r) : r.1.accepting = false := by
   unfold stSegID at e
   (repeat' (split at e)) <;> first | (cases e; rfl) | (cases e)
 
@@ -68,7 +145,10 @@ theorem stSegID_ok {h ing s s'} (e : stSegID h ing s = .ok s') : SegIDOk h ing s
   split at e
   · rename_i hu
     split at e
-    · cases e; exact ⟨rfl, rfl, rfl, rfl, by simp [hu], by simp [hu]⟩
+    · split at e
+      · cases e
+      · rename_i b hw
+        cases e; exact ⟨rfl, rfl, rfl, rfl, by simp [hu], by simp [hu, (wrInfo_some hw).1]⟩
     · cases e
   · rename_i hu
     cases e; exact ⟨rfl, rfl, rfl, rfl, by simp [hu], by simp [hu]⟩
@@ -194,7 +274,7 @@ theorem stMac_ok {cfg mac h ing s s'} (e : stMac cfg mac h ing s = .ok s') :
   · cases e
   · rename_i h1
     split at e
-    · split at e <;> cases e
+    · (repeat' (split at e)) <;> cases e
     · cases e
       exact ⟨rfl, by simpa using h1⟩
 
@@ -243,21 +323,30 @@ theorem stXover_ok {cfg mac h now s s'} (e : stXover cfg mac h now s = .ok s') :
     · rename_i b' hb
       split at e
       · cases e
-      · rename_i hop2 hh
+      · rename_i buf1 hw
+        have hw' := (wrMeta_some hw).1
+        subst hw'
         split at e
         · cases e
-        · rename_i inf2 hi
+        · cases e
+        · rename_i hop2 hh0
+          have hh := readHop_ok hh0
           split at e
           · cases e
-          · rename_i h1
+          · cases e
+          · rename_i inf2 hi0
+            have hi := readInfo_ok hi0
             split at e
             · cases e
-            · rename_i h2
-              cases e
-              refine ⟨rfl, ?_, ?_⟩
-              · intro hn; simp [hn] at hx
-              · intro _
-                exact ⟨b', hb, rfl, rfl, hh, hi, by simpa using h1, by simpa using h2, rfl⟩
+            · rename_i h1
+              split at e
+              · cases e
+              · rename_i h2
+                cases e
+                refine ⟨rfl, ?_, ?_⟩
+                · intro hn; simp [hn] at hx
+                · intro _
+                  exact ⟨b', hb, rfl, rfl, hh, hi, by simpa using h1, by simpa using h2, rfl⟩
   · rename_i hx
     cases e
     refine ⟨rfl, fun _ => rfl, ?_⟩
@@ -300,7 +389,7 @@ theorem stEgressAlertUp_ok {h l s s'} (e : stEgressAlertUp h l s = .ok s') :
     s' = s ∧ l.up = true := by
   unfold stEgressAlertUp at e
   split at e
-  · split at e <;> cases e
+  · (repeat' (split at e)) <;> cases e
   · split at e
     · cases e
     · rename_i hu
@@ -309,7 +398,7 @@ theorem stEgressAlertUp_ok {h l s s'} (e : stEgressAlertUp h l s = .ok s') :
 
 /-! ### stProcessEgress -/
 
-theorem stProcessEgress_err {h s r} (e : stProcessEgress h s = .error r) : r.1 = .discard := by
+theorem stProcessEgress_err {h s r} (e : stProcessEgress h s = .error r) : r.1.accepting = false := by
   unfold stProcessEgress at e
   (repeat' (split at e)) <;> first | (cases e; rfl) | (cases e)
 
@@ -323,15 +412,27 @@ theorem stProcessEgress_ok {h s s'} (e : stProcessEgress h s = .ok s') :
     split at e
     · split at e
       · cases e
-      · rename_i b' hb
-        cases e
-        exact ⟨b', hb, rfl, by simp [hu]⟩
+      · rename_i buf1 hw1
+        have h1 := (wrInfo_some hw1).1; subst h1
+        split at e
+        · cases e
+        · rename_i b' hb
+          split at e
+          · cases e
+          · rename_i buf2 hw2
+            have h2 := (wrMeta_some hw2).1; subst h2
+            cases e
+            exact ⟨b', hb, rfl, by simp [hu]⟩
     · cases e
   · rename_i hu
     split at e
     · cases e
     · rename_i b' hb
-      cases e
-      exact ⟨b', hb, rfl, by simp [hu]⟩
+      split at e
+      · cases e
+      · rename_i buf2 hw2
+        have h2 := (wrMeta_some hw2).1; subst h2
+        cases e
+        exact ⟨b', hb, rfl, by simp [hu]⟩
 
 end Scion.Router
